@@ -352,12 +352,61 @@ def run_configs(modname: str, fname: str, configs: List[Any], kwargs=None, jobs=
     jobs = jobs or min(16, os.cpu_count() or 4, max(1, len(configs)))
     if len(configs) == 0:
         return []
-    ctx = mp.get_context('fork')
-    out = []
-    with cf.ProcessPoolExecutor(max_workers=jobs, mp_context=ctx) as ex:
-        futs = [ex.submit(_run_worker, (modname, fname, c, kwargs)) for c in configs]
-        for f in futs:
-            out.append(f.result())
+    return _fork_map([(modname, fname, c, kwargs) for c in configs], jobs)
+
+
+def _fork_map(argslist, jobs):
+    """One forked process PER configuration (at most `jobs` at a time), results through pipes: no
+    configuration ever runs in a process another configuration has used, so process-wide state of the code
+    under test (class-level memos, lru_caches, module globals) cannot travel between configurations."""
+    import pickle
+    import select
+    out = [None] * len(argslist)
+    pending = list(range(len(argslist)))[::-1]
+    running = {}          # read fd -> (index, pid, chunks)
+    while pending or running:
+        while pending and len(running) < jobs:
+            i = pending.pop()
+            r, w = os.pipe()
+            sys.stdout.flush()
+            sys.stderr.flush()
+            pid = os.fork()
+            if pid == 0:
+                code = 0
+                try:
+                    os.close(r)
+                    for fd in list(running):
+                        os.close(fd)
+                    res = _run_worker(argslist[i])
+                    try:
+                        payload = pickle.dumps(res)
+                    except Exception as e:     # noqa: unpicklable witness etc.
+                        payload = pickle.dumps(dict(config=str(argslist[i][2]), obs=[], functions={}, stats={}, notes=[],
+                                                    error=f'result not picklable: {type(e).__name__}: {e}', wall=0))
+                    with os.fdopen(w, 'wb') as f:
+                        f.write(payload)
+                except BaseException:          # noqa
+                    code = 1
+                finally:
+                    os._exit(code)
+            os.close(w)
+            running[r] = (i, pid, [])
+        ready, _, _ = select.select(list(running), [], [], 5.0)
+        for fd in ready:
+            i, pid, chunks = running[fd]
+            data = os.read(fd, 1 << 20)
+            if data:
+                chunks.append(data)
+                continue
+            os.close(fd)
+            os.waitpid(pid, 0)
+            del running[fd]
+            blob = b''.join(chunks)
+            if blob:
+                out[i] = pickle.loads(blob)
+            else:
+                out[i] = dict(config=str(argslist[i][2]), obs=[], functions={}, stats={}, notes=[], wall=0,
+                              error='worker process died without a result (killed / out of memory?)')
     return out
 
 
